@@ -10,6 +10,7 @@ import (
 	"github.com/relex/slog-agent/base"
 	"github.com/relex/slog-agent/defs"
 	"github.com/relex/slog-agent/util"
+	"github.com/relex/slog-agent/util/vhook"
 )
 
 // bufferer is an intermediate buffer buf which saves log chunks to disk temporarily if needed.
@@ -113,6 +114,7 @@ func (buf *bufferer) Accept(chunk base.LogChunk) {
 		buf.logger.Debugf("pass chunk to queue: id=%s len=%d", chunk.ID, len(chunk.Data))
 		buf.chunkMan.OnChunkInput(true)
 	}
+	vhook.At("buffer.accept.afterDecision")
 
 	select {
 	case buf.inputChannel <- chunk:
